@@ -252,14 +252,32 @@ func main() {
 		rewriteWorker(os.Args[2:])
 		return
 	}
+	if len(os.Args) > 1 && os.Args[1] == "handoffworker" {
+		handoffWorker(os.Args[2:])
+		return
+	}
+	if len(os.Args) > 1 && os.Args[1] == "handoffrecoveronly" {
+		handoffRecoverOnly(os.Args[2:])
+		return
+	}
+	if len(os.Args) > 1 && os.Args[1] == "handoffrecover" {
+		handoffRecover(os.Args[2:])
+		return
+	}
 	cfg := vhlib.ParseFlags()
 	sum := vhlib.NewSummary("one case = one (log, mutation) pair; logs of 1-4 appended batches (datapoints from boundary pools and random bits, names, meta entries); " +
 		"mutations: every truncation length, single-byte modifications (quick: frame-header bytes + random positions; thorough: every position x 5 values), trailing garbage; " +
-		"non-trivial = the mutation changes the file; distinct by (log bytes, mutation)")
+		"non-trivial = the mutation changes the file; distinct by (log bytes, mutation); " +
+		"hand-off stream: one case = one crash point (prefix of the straced file-system calls of ingest + forced rotation, or of the start-up recovery) followed by the real restart")
 	r := vhlib.NewRng(cfg.Seed)
 	dir := filepath.Join(cfg.Out, "wal")
 	_ = os.MkdirAll(dir, 0o755)
 
+	if os.Getenv("C10_ONLY") == "handoff" { // development aid: only the forced-rotation hand-off stream
+		walHandoffCrash(cfg, sum, r.Fork())
+		sum.Write(cfg.Out)
+		return
+	}
 	nlogs := 6
 	nflips := 60
 	if cfg.Thorough() {
@@ -278,6 +296,7 @@ func main() {
 	walOrder(cfg, sum, dir)
 	walIngestCrash(cfg, sum, r.Fork())
 	walRewriteCrash(cfg, sum, r.Fork())
+	walHandoffCrash(cfg, sum, r.Fork())
 	walBigBlocks(cfg, sum, dir)
 	sum.Write(cfg.Out)
 }
